@@ -23,16 +23,10 @@ func (*urlencodedBodyProcessor) ProcessRequest(reader io.Reader, v plugintypes.T
 	}
 
 	b := buf.String()
-	values := urlutil.ParseQuery(b, '&')
-	argsCol := v.ArgsPost()
-	for k, vs := range values {
-		// Add, not Set: names that differ only in letter case are distinct map keys here but
-		// share one entry in the (case-insensitive) collection, where Set would replace the values
-		// of the name seen first.
-		for _, v := range vs {
-			argsCol.Add(k, v)
-		}
-	}
+	// Add, not Set: names that differ only in letter case share one entry in the
+	// (case-insensitive) collection, where Set would replace the values of the name seen first.
+	// The pairs are added in body order, not in the iteration order of a map.
+	urlutil.ParsePairs(b, '&', v.ArgsPost().Add)
 	v.RequestBody().(*collections.Single).Set(b)
 	v.RequestBodyLength().(*collections.Single).Set(strconv.Itoa(len(b)))
 	return nil
